@@ -1,7 +1,7 @@
 (* C08 — the property theorems, and nothing else. *)
 From stdpp Require Import gmap list.
 From Coq Require Import ZArith Lia.
-From Verif Require Import S1.Model C07.Spec C07.Proofs C08.Model C08.Proofs C08.ProofsS.
+From Verif Require Import S1.Model C07.Spec C07.Proofs C08.Model C08.Proofs C08.ProofsS C08.ProofsL.
 Open Scope Z_scope.
 
 (* A crash at ANY point - after any prefix of the durable steps of a store
@@ -317,4 +317,58 @@ Proof.
     split; [intros E; apply (f_equal (fun s => length (ents (ff s)))) in E; vm_compute in E; discriminate|].
     repeat (split; [vm_compute; reflexivity|]). vm_compute; reflexivity.
   - repeat (split; [vm_compute; reflexivity|]). vm_compute. discriminate.
+Qed.
+
+
+(* ======================= LOST FILE TAIL (not a process crash) ======================= *)
+
+(* Outside the crash model of the theorems above: a power loss may lose the
+   unsynced tail of a flat file although the index transactions that followed
+   it are durable ("index tip beyond the file").  For EVERY state satisfying
+   the invariant and EVERY number of lost bytes that leaves at least the
+   genesis entry in the file, the start-up FAILS CLOSED: NewBlockHeaderStore /
+   NewFilterHeaderStore refuse to open (fileHeight - tipHeight wraps, the
+   truncation is rejected).  Nothing is repaired, nothing is served from a
+   store whose index knows headers the file no longer holds.  (If the whole
+   file is lost - fewer than one entry left - the constructor starts the file
+   over with the genesis entry while the old index entries stay: not covered,
+   see props/C08.json.) *)
+Theorem C08_lost_tail_fails_closed : forall g gfh s a bytes c,
+  Inv s a ->
+  (lose_block_tail s bytes = Some c /\ BSZ <= fsize BSZ (bf s) - bytes) \/
+  (lose_filter_tail s bytes = Some c /\ FSZ <= fsize FSZ (ff s) - bytes /\
+   forall x y, x ∈ fl a -> y ∈ bl a -> x <> y) ->
+  recover g gfh c = None.
+Proof.
+  intros g gfh s a bytes c HI [[Hc Hr]|(Hc & Hr & Hdis)].
+  - exact (lost_block_tail_fails_closed g gfh s a HI bytes c Hc Hr).
+  - exact (lost_filter_tail_fails_closed g gfh s a HI bytes c Hdis Hc Hr).
+Qed.
+Print Assumptions C08_lost_tail_fails_closed.
+
+(* ... for every history. *)
+Theorem C08_lost_tail_every_history : forall g gfh ops s0 bytes c,
+  init g gfh = Some s0 -> wf_ops {| bl := [g]; fl := [gfh] |} ops ->
+  let s := fst (run g gfh s0 ops) in
+  lose_block_tail s bytes = Some c -> BSZ <= fsize BSZ (bf s) - bytes ->
+  recover g gfh c = None.
+Proof.
+  intros g gfh ops s0 bytes c Hi Hwf s Hc Hr.
+  destruct (init_inv g gfh) as (s0' & Hi' & HI0). rewrite Hi in Hi'. injection Hi' as <-.
+  pose proof (proj2 (run_refines g gfh ops s0 _ HI0 Hwf)) as HI.
+  exact (lost_block_tail_fails_closed g gfh _ _ HI bytes c Hc Hr).
+Qed.
+Print Assumptions C08_lost_tail_every_history.
+
+(* Non-vacuity: the 5/4-entry store of the start-up example loses its last
+   block header, two headers and 37 bytes, one filter header: images exist,
+   the index tip is beyond the file, recovery refuses. *)
+Example C08_lost_tail_nonvacuous :
+  exists s c1 c2 c3, ex2_state = Some s /\
+    lose_block_tail s 80 = Some c1 /\ ents (bf c1) = [7; 11; 12; 13] /\ btip c1 = Some 14 /\
+    idx c1 !! 14 = Some 4 /\ recover 7 1000000 c1 = None /\
+    lose_block_tail s 197 = Some c2 /\ ents (bf c2) = [7; 11] /\ junk (bf c2) = 43 /\ recover 7 1000000 c2 = None /\
+    lose_filter_tail s 32 = Some c3 /\ ents (ff c3) = [1000000; 1000001; 1000002] /\ recover 7 1000000 c3 = None.
+Proof.
+  do 4 eexists. repeat (split; [vm_compute; reflexivity|]). vm_compute; reflexivity.
 Qed.
